@@ -1343,7 +1343,7 @@ func (g *whG) cfg() *admregv1.MutatingWebhookConfiguration {
 		ObjectMeta: metav1.ObjectMeta{Name: configuration.MutatingWebhookConfigurationName}, Webhooks: whs}
 }
 
-func rawOf(o interface{}) json.RawMessage {
+func webhookRawOf(o interface{}) json.RawMessage {
 	by, err := json.Marshal(o)
 	must(err)
 	return by
@@ -1411,7 +1411,7 @@ func (g *whG) genCase() *whGen {
 	}
 	out.Old, out.New = whRaw(old), whRaw(nw)
 	if c := g.cfg(); c != nil {
-		out.Cfg = rawOf(c)
+		out.Cfg = webhookRawOf(c)
 	} else {
 		out.Cfg = json.RawMessage("null")
 	}
@@ -1426,11 +1426,11 @@ func (g *whG) genCase() *whGen {
 	}
 	steered := g.n(nr + 1) // which Rollout (in generation order) is steered to match
 	for i := 0; i < nr; i++ {
-		out.Rollouts = append(out.Rollouts, rawOf(g.rollout(names[i], nw, out.Group, out.Version, out.Kind, g.bias && i == steered)))
+		out.Rollouts = append(out.Rollouts, webhookRawOf(g.rollout(names[i], nw, out.Group, out.Version, out.Kind, g.bias && i == steered)))
 	}
 	if combo == "dep" {
 		for _, rs := range g.replicaSets(nw, old.Body) {
-			out.RSs = append(out.RSs, rawOf(rs))
+			out.RSs = append(out.RSs, webhookRawOf(rs))
 		}
 	}
 	return out
